@@ -23,6 +23,34 @@ lean/FordModel/Generated/C13.lean:
 The model (`Graph.targets`) consults the table, the theorems `iface_rule_*` of Props/C13.lean are
 stated over it: an edit of the guards in the source changes a kernel-checked obligation.
 
+Second table (round 4): the *links of the node constructors*.  Every constructor of ford/graphs.py
+(`ModNode`, `SubmodNode`, `TypeNode`, `ProcNode`, `ProgNode`, `BlockNode`, `FileNode`) reads some
+attributes of its Fortran object ("slots": `uses`, parent submodule / ancestor module, `extends`,
+component prototypes, `calls`, `bindings`, the `deplist` of the program units of a file) and must store
+every target it finds **on its own node and, inversely, on the node of the target**.  Which slots a
+constructor reads and whether both directions are written is read off the working tree by *running the real
+constructors* (real `GraphData`) on a stub object of every class of `ford.sourceform` the graph code
+accepts, with every slot holding a distinct sentinel object:
+
+  ctorLinks : List CtorLink     one row per (class, slot, attribute the slot was offered through)
+      cls / name    row of `ifaceRules` / name of the Python class of the object the node is made for
+      kind          code of the node class (`Graph.Kind.code`: 0 module, 1 submodule, 2 type, 3 procedure,
+                    4 program, 5 file, 6 block data)
+      slot          code of the slot (`Graph.Slot.code`: 0 uses, 1 ancestor, 2 extends, 3 components,
+                    4 calls, 5 bindings, 6 file dependencies)
+      via           the Python attribute the sentinel was offered through
+      fwd / inv     the node of the sentinel is stored on the new node / the new node is stored on the
+                    node of the sentinel
+  ctorClasses : List (Nat × Nat)   (row of `ifaceRules`, kind code) of every class that gets a node with links
+
+A slot whose sentinel never gets a node is not read by that constructor and has no row - except the lists of
+program units of a source file (found by `ast` in `FortranSourceFile.__init__`), which always have one: a
+kind of program unit whose dependencies the file node ignores shows as `fwd := false`.
+
+Third table (round 4): `projectLists` - the entity lists of `Project` (ast, ford/fortran_project.py) and
+whether `Documentation.__init__` (ast, ford/output.py) registers their items with the graph manager; the
+harness registers exactly the lists found there.
+
 A construct that cannot be found / probed raises (tie broken, never a pass).
 """
 from __future__ import annotations
@@ -198,6 +226,217 @@ def extract(ford=None) -> list[dict]:
     return rows
 
 
+# --------------------------------------------------------------------------
+# the links of the node constructors
+# --------------------------------------------------------------------------
+
+KIND_CODES = {"ModNode": 0, "SubmodNode": 1, "TypeNode": 2, "ProcNode": 3, "ProgNode": 4, "FileNode": 5,
+              "BlockNode": 6}
+SLOT_CODES = {"uses": 0, "anc": 1, "ext": 2, "comps": 3, "calls": 4, "bindings": 5, "deps": 6}
+
+
+def file_unit_lists() -> list[str]:
+    """the lists of program units a source file holds: the attributes `FortranSourceFile.__init__`
+    declares as `List[Fortran...]` (ast)"""
+    tree = ast.parse((common.REPO / "ford" / "sourceform.py").read_text())
+    out = []
+    for cls in tree.body:
+        if isinstance(cls, ast.ClassDef) and cls.name == "FortranSourceFile":
+            for fn in cls.body:
+                if isinstance(fn, ast.FunctionDef) and fn.name == "__init__":
+                    for n in ast.walk(fn):
+                        if isinstance(n, ast.AnnAssign) and isinstance(n.target, ast.Attribute) \
+                                and isinstance(n.annotation, ast.Subscript) \
+                                and getattr(n.annotation.value, "id", "") == "List" \
+                                and getattr(n.annotation.slice, "id", "").startswith("Fortran") \
+                                and getattr(n.annotation.slice, "id", "") != "FortranBase":
+                            out.append(n.target.attr)
+    if len(out) < 2:
+        raise LookupError("the lists of program units of FortranSourceFile were not found")
+    return out
+
+
+class _CtorProbe:
+    """runs the real node constructors on stub objects whose relation slots hold sentinels"""
+
+    def __init__(self, ford):
+        import ford.graphs as G
+        import ford.sourceform as sf
+
+        self.G, self.sf = G, sf
+        self.count = 0
+        self.unit_lists = file_unit_lists()
+        for need in ("GraphData", "BaseNode"):
+            if not hasattr(G, need):
+                raise LookupError(f"ford.graphs.{need} not found")
+
+    def stub(self, cls, **attrs):
+        """an instance of (a subclass of) `cls` that has an identity and no relation at all"""
+        self.count += 1
+        ident = f"stub{self.count}"
+        sub = type("Stub" + cls.__name__, (cls,), dict(
+            get_dir=lambda self: "stub", get_url=lambda self: None, ident=ident, name=ident,
+            __hash__=lambda self: id(self), __eq__=lambda self, other: self is other))
+        o = object.__new__(sub)
+        base = dict(visible=True, parent=None, uses=[], calls=[], bindings=[], extends=None, local_variables=[],
+                    parent_submodule=None, ancestor_module=None, modprocs=[], deferred=False,
+                    procedure=types.SimpleNamespace(module=None, name=ident))
+        for unit_list in self.unit_lists:
+            base[unit_list] = []
+        for k, v in {**base, **attrs}.items():
+            try:
+                setattr(o, k, v)
+            except AttributeError:
+                raise LookupError(f"attribute `{k}` of {cls.__name__} cannot be set on a stub")
+        return o
+
+    @staticmethod
+    def holds(node, other) -> bool:
+        """is `other` stored in some attribute of `node` (directly, or in a set / dict / list)?"""
+        for v in vars(node).values():
+            if v is other:
+                return True
+            if isinstance(v, (set, frozenset, dict, list, tuple)) and any(x is other for x in v):
+                return True
+        return False
+
+    def probe(self, cls, with_parent_submodule: bool):
+        """-> (node class name, [(slot, via, touched, fwd, inv)]) or None when the class gets no node with links"""
+        G, sf = self.G, self.sf
+        sentinels = []      # (slot, via, object)
+
+        def s(slot, via, target_cls, **attrs):
+            o = self.stub(target_cls, **attrs)
+            sentinels.append((slot, via, o))
+            return o
+
+        far_module = self.stub(sf.FortranModule)
+        attrs = dict(
+            uses=[s("uses", "uses", sf.FortranModule)],
+            ancestor_module=s("anc", "ancestor_module", sf.FortranModule),
+            extends=s("ext", "extends", sf.FortranType),
+            local_variables=[types.SimpleNamespace(vartype="type", name="c", proto=[s("comps", "local_variables", sf.FortranType)])],
+            calls=[s("calls", "calls", sf.FortranSubroutine)],
+            bindings=[s("bindings", "bindings", sf.FortranSubroutine)],
+        )
+        if with_parent_submodule:
+            attrs["parent_submodule"] = s("anc", "parent_submodule", sf.FortranSubmodule, ancestor_module=far_module)
+        for unit_list in self.unit_lists:
+            dep = types.SimpleNamespace(source_file=s("deps", unit_list, sf.FortranSourceFile))
+            attrs[unit_list] = [types.SimpleNamespace(deplist=[dep])]
+        obj = self.stub(cls, **attrs)
+        gd = G.GraphData("..", False, False)
+        try:
+            _, node_type = gd._get_collection_and_node_type(obj)
+        except G.BadType:
+            return None
+        try:
+            node = gd.get_node(obj)
+        except Exception as e:
+            raise LookupError(f"{node_type.__name__}.__init__ raises on a stub {cls.__name__}: {type(e).__name__}: {e}")
+        if getattr(node, "fromstr", False):
+            return None         # objects of an external project are represented by their name: no links
+        colls = [c for c in vars(gd).values() if isinstance(c, dict)]
+        rows = []
+        for slot, via, target in sentinels:
+            tnode = next((c[target] for c in colls if target in c), None)
+            rows.append((slot, via, tnode is not None, tnode is not None and self.holds(node, tnode),
+                         tnode is not None and self.holds(tnode, node)))
+        return node_type.__name__, rows
+
+
+def extract_ctor(ford=None):
+    """-> (rows [dict(cls, name, kind, slot, via, fwd, inv)], classes [(cls, kind)])"""
+    ford = ford or common.import_ford()
+    import ford.sourceform as sf
+
+    names = class_names(ford)
+    probe = _CtorProbe(ford)
+    rows, classes = [], []
+    for cls in _sf_classes(sf):
+        merged = {}
+        node_class = None
+        for with_parent in (False, True):
+            res = probe.probe(cls, with_parent)
+            if res is None:
+                continue
+            node_class, rs = res
+            for slot, via, touched, fwd, inv in rs:
+                if touched or slot == "deps" and node_class == "FileNode":
+                    k = (slot, via)
+                    old = merged.get(k, (True, True))
+                    merged[k] = (old[0] and fwd, old[1] and inv)
+        if node_class is None:
+            continue
+        if node_class not in KIND_CODES:
+            raise LookupError(f"node class {node_class} (for {cls.__name__}) is not known to the model")
+        ci = names.index(cls.__name__)
+        classes.append((ci, KIND_CODES[node_class]))
+        for (slot, via), (fwd, inv) in merged.items():
+            rows.append(dict(cls=ci, name=cls.__name__, kind=KIND_CODES[node_class], slot=SLOT_CODES[slot], via=via,
+                             fwd=fwd, inv=inv))
+    if len({k for _, k in classes}) < len(KIND_CODES):
+        raise LookupError("some node class of ford.graphs is not reached by any class of ford.sourceform: "
+                          f"{sorted(set(KIND_CODES.values()) - {k for _, k in classes})}")
+    return rows, classes
+
+
+def kind_of_class(ford=None) -> dict[int, int]:
+    """row of `ifaceRules` -> kind code, for the harness (entities of a class without a row have no links)"""
+    return dict(extract_ctor(ford)[1])
+
+
+# --------------------------------------------------------------------------
+# which entities of a project are handed to the graph manager
+# --------------------------------------------------------------------------
+
+
+def registration_lists() -> list[str]:
+    """the lists of the project whose items `Documentation.__init__` (ford/output.py) registers with the
+    graph manager, in source order: the `for ... in [project.a, project.b, ...]` loop around `.register(`"""
+    tree = ast.parse((common.REPO / "ford" / "output.py").read_text())
+    found = []
+    for n in ast.walk(tree):
+        if isinstance(n, ast.For) and isinstance(n.iter, (ast.List, ast.Tuple)) and any(
+                isinstance(c, ast.Call) and isinstance(c.func, ast.Attribute) and c.func.attr == "register"
+                for c in ast.walk(n)):
+            names = []
+            for e in n.iter.elts:
+                if not (isinstance(e, ast.Attribute) and isinstance(e.value, ast.Name) and e.value.id == "project"):
+                    raise LookupError("ford/output.py: an element of the registration list is not `project.<list>`")
+                names.append(e.attr)
+            found.append(names)
+    if len(found) != 1:
+        raise LookupError(f"ford/output.py: expected one loop that registers entities with the graph manager, found {len(found)}")
+    return found[0]
+
+
+def project_lists(ford=None) -> list[dict]:
+    """the lists of entities a `Project` holds (`self.x: List[<class of ford.sourceform>] = []` in
+    `Project.__init__`, ast) -> [dict(name, cls (row of ifaceRules), registered)]"""
+    names = class_names(ford)
+    reg = registration_lists()
+    tree = ast.parse((common.REPO / "ford" / "fortran_project.py").read_text())
+    out = []
+    for cls in tree.body:
+        if isinstance(cls, ast.ClassDef) and cls.name == "Project":
+            for fn in cls.body:
+                if isinstance(fn, ast.FunctionDef) and fn.name == "__init__":
+                    for n in ast.walk(fn):
+                        if isinstance(n, ast.AnnAssign) and isinstance(n.target, ast.Attribute) \
+                                and isinstance(n.annotation, ast.Subscript) \
+                                and getattr(n.annotation.value, "id", "") == "List" \
+                                and getattr(n.annotation.slice, "id", None) in names:
+                            out.append(dict(name=n.target.attr, cls=names.index(n.annotation.slice.id),
+                                            registered=n.target.attr in reg))
+    if len(out) < 4:
+        raise LookupError("the entity lists of ford.fortran_project.Project were not found")
+    missing = [r for r in reg if r not in [o["name"] for o in out]]
+    if missing:
+        raise LookupError(f"ford/output.py registers project lists that Project.__init__ does not declare: {missing}")
+    return out
+
+
 def _b(x) -> str:
     return "true" if x else "false"
 
@@ -234,6 +473,47 @@ def generate():
             f'isProcedure := {_b(r["isProcedure"])}, declaresModule := {_b(r["declaresModule"])}, '
             f'modproc := {_b(r["modproc"])}, modprocHidden := {_b(r["modprocHidden"])}, '
             f'impl := {_b(r["impl"])}, implHidden := {_b(r["implHidden"])} }}' + ("," if i + 1 < len(rows) else ""))
+    lines += ["]", ""]
+    crow, classes = extract_ctor()
+    lines += [
+        "/-- one row per (Python class of the Fortran object, relation slot its node constructor reads) -/",
+        "structure CtorLink where",
+        "  /-- row of `ifaceRules` of the class / its name -/",
+        "  cls : Nat",
+        "  name : String",
+        "  /-- `Graph.Kind.code` of the node class the object gets -/",
+        "  kind : Nat",
+        "  /-- `Graph.Slot.code` -/",
+        "  slot : Nat",
+        "  /-- the Python attribute the target was offered through -/",
+        "  via : String",
+        "  /-- the target's node is stored on the new node -/",
+        "  fwd : Bool",
+        "  /-- the new node is stored on the target's node -/",
+        "  inv : Bool",
+        "",
+        "def ctorLinks : List CtorLink := [",
+    ]
+    for i, r in enumerate(crow):
+        lines.append(f'  {{ cls := {r["cls"]}, name := "{r["name"]}", kind := {r["kind"]}, slot := {r["slot"]}, '
+                     f'via := "{r["via"]}", fwd := {_b(r["fwd"])}, inv := {_b(r["inv"])} }}'
+                     + ("," if i + 1 < len(crow) else ""))
+    lines += ["]", "",
+              "/-- (row of `ifaceRules`, kind code) of every class whose objects get a node with links -/",
+              "def ctorClasses : List (Nat × Nat) := [" + ", ".join(f"({c}, {k})" for c, k in classes) + "]", "",
+              "/-- a list of entities of `ford.fortran_project.Project`: attribute, row of `ifaceRules` of the",
+              "    declared element class, and whether `Documentation.__init__` (ford/output.py) hands its items",
+              "    to `GraphManager.register` -/",
+              "structure ProjList where",
+              "  name : String",
+              "  cls : Nat",
+              "  registered : Bool",
+              "",
+              "def projectLists : List ProjList := ["]
+    pl = project_lists()
+    for i, r in enumerate(pl):
+        lines.append(f'  {{ name := "{r["name"]}", cls := {r["cls"]}, registered := {_b(r["registered"])} }}'
+                     + ("," if i + 1 < len(pl) else ""))
     lines += ["]", "", "end Ford.C13Gen", ""]
     common.write_if_changed(common.LEAN / "FordModel" / "Generated" / "C13.lean", "\n".join(lines))
     return rows
